@@ -446,6 +446,47 @@ def pair_stream(ctx: Ctx, scratch: pathlib.Path) -> None:
     ctx.extra_cov["error_pairs"] = n
 
 
+
+def history_stream(ctx: Ctx, scratch: pathlib.Path) -> None:
+    """Output-directory histories per target: generate twice into the same directory; generate into a directory
+    that holds a regular file where a sub-directory is needed and a directory where a file is to be written."""
+    seen = set()
+    for kind, model, target, snippets in fixture_cases(1):
+        if kind != "valid" or target in seen:
+            continue
+        seen.add(target)
+        out = scratch / f"hist_{target}"
+        first = run_cli(model, target, snippets, out, scratch)  # type: ignore
+        second = run_cli(model, target, snippets, out, scratch)  # type: ignore
+        for step, res in (("first", first), ("second-into-same-dir", second)):
+            ctx.count(("history", target, step), nontrivial=True, stream="cli-history")
+            for sig, what in judge(res):
+                ctx.fail({"kind": "history", "step": step, "model": str(model), "target": target, "snippets": str(snippets)}, what, sig + ":" + step)
+        if first["exc"] is not None or first["rc"] != 0:
+            continue
+        files = sorted(p for p in out.rglob("*") if p.is_file())
+        dirs = sorted(p for p in out.rglob("*") if p.is_dir())
+        obstacles = []
+        if dirs:
+            obstacles.append(("file-where-directory-needed", dirs[0].relative_to(out), "file"))
+        if files:
+            obstacles.append(("directory-where-file-written", files[-1].relative_to(out), "dir"))
+        for name, rel, what_kind in obstacles:
+            o2 = scratch / f"hist_{target}_{name}"
+            (o2 / rel).parent.mkdir(parents=True, exist_ok=True)
+            if what_kind == "file":
+                (o2 / rel).write_text("obstacle")
+            else:
+                (o2 / rel).mkdir()
+            res = run_cli(model, target, snippets, o2, scratch)  # type: ignore
+            ctx.count(("history", target, name), nontrivial=True, stream="cli-history")
+            ctx.hit(f"history:{name}:rc={res['rc']}" if res["exc"] is None else f"history:{name}:{res['exc']}")
+            for sig, what in judge(res):
+                ctx.fail({"kind": "history", "step": name, "obstacle": str(rel), "model": str(model), "target": target, "snippets": str(snippets)}, what, sig + ":" + name)
+            shutil.rmtree(o2, ignore_errors=True)
+        shutil.rmtree(out, ignore_errors=True)
+
+
 def oracle(ctx: Ctx) -> None:
     scratch = ctx.scratch()
     kinds: Dict[str, int] = {}
@@ -470,6 +511,7 @@ def oracle(ctx: Ctx) -> None:
             shutil.rmtree(out, ignore_errors=True)
     ctx.extra_cov["cli_runs"] = kinds
     pair_stream(ctx, scratch)
+    history_stream(ctx, scratch)
 
 
 def replay(ctx: Ctx, data: Dict[str, Any]) -> Any:
